@@ -1078,3 +1078,63 @@ def _make_leaf_count(owner):
 
 _make_leaf_count("Categories")
 _make_leaf_count("Category")
+
+
+# ---------------------------------------------------------------------------------------------------------
+# the chart-wide series sequence (what replace_data pairs the supplied series with, what is trimmed from the end)
+
+
+def _replay_iter_sers(model, rec):
+    import glob
+    import os
+
+    from pptx import Presentation
+
+    C_ = "{http://schemas.openxmlformats.org/drawingml/2006/chart}"
+    repo = os.environ.get("PPTX_REPO", "/repo")
+    seen = 0
+    for f in sorted(glob.glob(os.path.join(repo, "features", "steps", "test_files", "cht-*.pptx"))):
+        for sl in Presentation(f).slides:
+            for sh in sl.shapes:
+                if not sh.has_chart or len(list(sh.chart.plots)) < 2:
+                    continue
+                chart = sh.chart
+                plots_ = [sorted(p._element.findall(C_ + "ser"), key=lambda e_: int(e_.find(C_ + "order").get("val"))) for p in chart.plots]
+                k_, rr_ = 0, [list(p_) for p_ in plots_]
+                while any(rr_):
+                    for p_ in rr_:
+                        if p_:
+                            p_.pop(0).find(C_ + "order").set("val", str(k_))
+                            k_ += 1
+                seen += 1
+                got = list(chart._chartSpace.chart.plotArea.iter_sers())
+                if got != [e_ for p_ in plots_ for e_ in p_]:
+                    return {"confirmed": True, "witness_class": "chart-roundtrip", "detail": "%s: with c:order interleaved between %d plots the chart-wide series sequence is not plot by plot" % (os.path.basename(f), len(plots_))}
+    return {"confirmed": False, "detail": "%d multi-plot corpus charts: series sequence is plot by plot" % seen}
+
+
+def _make_iter_sers(sizes):
+    @contract("C07", "C07.oxml.chart.chart.CT_PlotArea.iter_sers[plots of %s series]" % "+".join(map(str, sizes)), replay=_replay_iter_sers)
+    def body(c):
+        """the series of a chart are those of its first plot, in that plot's own sequence, followed by those of the next plot, and so on
+        (plots in document order); nothing else decides the sequence.  Plot counts / sizes enumerated."""
+        from pptx.oxml.chart.chart import CT_PlotArea
+
+        plots, want = [], []
+        for i, n in enumerate(sizes):
+            sers = [SObj(None, "ser_%d_%d" % (i, j), __external__=True) for j in range(n)]
+            want += sers
+            plots.append(SObj(None, "xChart%d" % i, iter_sers=GhostFn(lambda it, a, k, sers=sers: iter(list(sers)), "xChart.iter_sers"), __external__=True))
+        pa = SObj(CT_PlotArea, "plotArea", iter_xCharts=GhostFn(lambda it, a, k: iter(list(plots)), "iter_xCharts"))
+        out = c.run(lambda p: list(p.iter_sers()), pa)
+        if out.raised:
+            c.fails("never_raises", "raised %s" % out.exc)
+            return
+        got = out.value
+        c.ensures("post.plot_by_plot", len(got) == len(want) and all(a is b for a, b in zip(got, want)))
+
+    return body
+
+
+for _sizes in ((), (2,), (3, 2), (1, 0, 2), (2, 2, 1)):
+    _make_iter_sers(_sizes)
